@@ -31,9 +31,17 @@ use std::{
     atomic::{AtomicBool, Ordering},
     Arc,
   },
-  thread,
-  time::{Duration, Instant},
+  time::Duration,
 };
+#[cfg(not(excsn_fibre_verif))]
+use std::{thread, time::Instant};
+// Simulation build: appender threads and their clock come from the simulation runtime.
+#[cfg(excsn_fibre_verif)]
+use fibre_verif_rt::{thread, time::Instant};
+
+#[cfg(excsn_fibre_verif)]
+#[path = "init_verif.rs"]
+pub mod verif;
 
 use fibre::{mpsc, RecvErrorTimeout};
 use log::LevelFilter as LogLevelFilter;
